@@ -82,9 +82,11 @@ Resize(c, n) == IF n <= Len(c) THEN SubSeq(c, 1, n) ELSE c \o Zeros(n - Len(c))
 \* apply f to every name of the file identified like v[p] (hard links)
 OnFile(v, p, f(_)) == [q \in Paths |-> IF v[q].t # "none" /\ v[q].id = v[p].id THEN f(v[q]) ELSE v[q]]
 
-Ok(v)        == [ok |-> TRUE,  free |-> FALSE, v |-> v, errs |-> {}]
-Fail(v, es)  == [ok |-> FALSE, free |-> FALSE, v |-> v, errs |-> es]
-Free(v)      == [ok |-> FALSE, free |-> TRUE,  v |-> v, errs |-> {}]
+\* alt: a second view a success may also produce (only for combinations POSIX leaves unspecified)
+Ok(v)          == [ok |-> TRUE,  free |-> FALSE, v |-> v, errs |-> {}, alt |-> v]
+Fail(v, es)    == [ok |-> FALSE, free |-> FALSE, v |-> v, errs |-> es, alt |-> v]
+Free(v)        == [ok |-> FALSE, free |-> TRUE,  v |-> v, errs |-> {}, alt |-> v]
+FreeAlt(v, w)  == [ok |-> FALSE, free |-> TRUE,  v |-> v, errs |-> {}, alt |-> w]
 
 NewNode(t, m, tg, fid) == [t |-> t, m |-> m % 4096, c |-> <<>>, tg |-> tg, x |-> {}, o |-> FALSE, id |-> fid]
 
@@ -145,6 +147,40 @@ AOp(v, o, hasUpper, fid) ==
          ELSE IF ~\E e \in v[o.p].x : e[1] = o.n THEN Fail(v, {ENODATA})
          ELSE Ok(OnFile(v, o.p, LAMBDA n : [n EXCEPT !.x = {e \in n.x : e[1] # o.n}]))
     [] OTHER -> Free(v)
+
+(* ------------- OPEN with a full flag word, and operations through kept handles ------------- *)
+\* o.acc \in {"r", "w", "rw"}, o.trunc, o.app: BOOLEAN. An open handle (slot) remembers the identity of the file
+\* it was opened on and its access mode; what is done through it applies to that file under all its names.
+NoSlot == [id |-> <<>>, acc |-> ""]
+OnId(v, id, f(_)) == [q \in Paths |-> IF v[q].t # "none" /\ v[q].id = id THEN f(v[q]) ELSE v[q]]
+IdVisible(v, id) == \E q \in Paths : v[q].t # "none" /\ v[q].id = id
+
+AOpen(v, o, hasUpper) ==
+  IF o.p \notin Paths \/ ~Exists(v, o.p) THEN Fail(v, {})
+  ELSE IF v[o.p].t # "file" THEN (IF v[o.p].t = "dir" /\ o.acc # "r" THEN Fail(v, {}) ELSE Free(v))
+  ELSE IF ~hasUpper THEN (IF o.acc # "r" \/ o.trunc \/ o.app THEN Fail(v, {}) ELSE Free(v))
+  ELSE IF ~o.trunc THEN Ok(v)
+  \* O_RDONLY|O_TRUNC is unspecified (Linux truncates when the caller may write the file): either result
+  ELSE IF o.acc = "r" THEN FreeAlt(OnFile(v, o.p, LAMBDA n : [n EXCEPT !.c = <<>>]), v)
+  ELSE Ok(OnFile(v, o.p, LAMBDA n : [n EXCEPT !.c = <<>>]))
+
+\* slots: [0..2 -> slot]. Operations on an empty slot are not issued by the driver (Free); a file that is no longer
+\* visible under any name cannot be observed, so nothing is required there either.
+AHandleOp(v, slots, o, hasUpper) ==
+  IF o.op = "open" THEN AOpen(v, o, hasUpper)
+  ELSE IF o.op \in {"close", "hprobe"} THEN Free(v)
+  ELSE LET s == slots[o.slot] IN
+       IF s = NoSlot \/ ~IdVisible(v, s.id) THEN Free(v)
+       ELSE IF ~hasUpper THEN Fail(v, {})
+       ELSE CASE o.op = "hsetattr" /\ o.what = "mode" -> Ok(OnId(v, s.id, LAMBDA n : [n EXCEPT !.m = o.m % 4096]))
+              [] o.op = "hsetattr" /\ o.what = "size" ->
+                   IF s.acc = "r" THEN Free(OnId(v, s.id, LAMBDA n : [n EXCEPT !.c = Resize(n.c, o.len)]))
+                   ELSE Ok(OnId(v, s.id, LAMBDA n : [n EXCEPT !.c = Resize(n.c, o.len)]))
+              [] o.op = "hwrite" ->
+                   IF s.acc = "r" THEN Fail(v, {})
+                   ELSE Ok(OnId(v, s.id, LAMBDA n : [n EXCEPT !.c = WriteContent(n.c, o.off, o.c)]))
+              [] OTHER -> Free(v)
+HandleOps == {"open", "close", "hprobe", "hsetattr", "hwrite"}
 
 (* --------------- pre-state classes (used in violation signatures) --------------- *)
 \* type of the entry a layer tree has at p, opaque directories distinguished
